@@ -29,10 +29,13 @@ NSHARDS = int(os.environ.get("VZ_SHARDS", "16"))
 class Violation(Exception):
     """The property does not hold for this case."""
 
-    def __init__(self, clause: str, detail: str = "") -> None:
+    def __init__(self, clause: str, detail: str = "", case=None, part=None) -> None:
         super().__init__(f"{clause}: {detail}")
         self.clause = clause
         self.detail = detail
+        # optional: a smaller, self-contained case (and the part whose check replays it)
+        self.case = case
+        self.part = part
 
 
 class InvalidCase(Exception):
@@ -160,8 +163,9 @@ def run_one(part: Part, case: Any, res: ShardResult, open_keys: set,
         n = sum(1 for f in res.failures if f["sig"] == v.clause)
         if n < MAX_FAILS_PER_SIG:
             res.failures.append(
-                {"sig": v.clause, "detail": v.detail[:2000], "case": case,
-                 "part": part.name}
+                {"sig": v.clause, "detail": v.detail[:2000],
+                 "case": case if v.case is None else v.case,
+                 "part": part.name if v.part is None else v.part}
             )
         else:
             res.info["more_failures:" + v.clause] += 1
